@@ -23,7 +23,64 @@ def dataclass_fields(cls):
                         init = False
             if init:
                 out.append(st.target.id)
+    if not out:
+        # a plain class: the parameters of its explicit __init__
+        for st in cls.body:
+            if isinstance(st, ast.FunctionDef) and st.name == "__init__":
+                a = st.args
+                out = [x.arg for x in (a.posonlyargs + a.args)[1:]] + [x.arg for x in a.kwonlyargs]
     return out
+
+
+def dict_entries(repo, mod, expr, _depth=0):
+    """{constant key: value node} of a module-level table however it is assembled: a dict literal, `{**a, **b}`, `a | b`,
+    `dict(a, **b)` / `dict(k=v)`, `merge(a, b)`, or a name bound once to one of those.  None when it is built some other way"""
+    from .core import const_str
+    if _depth > 6 or expr is None:
+        return None
+    if isinstance(expr, ast.Name):
+        r = repo.resolve_module_name(mod, expr.id)
+        if r.kind == "value" and len(r.exprs) == 1:
+            return dict_entries(repo, r.mod, r.exprs[0], _depth + 1)
+        return None
+    if isinstance(expr, ast.Dict):
+        out = {}
+        for k, v in zip(expr.keys, expr.values):
+            if k is None:
+                sub = dict_entries(repo, mod, v, _depth + 1)
+                if sub is None:
+                    return None
+                out.update(sub)
+            else:
+                key = const_str(k) if const_str(k) is not None else (k.value if isinstance(k, ast.Constant) else None)
+                if key is None:
+                    return None
+                out[key] = v
+        return out
+    if isinstance(expr, ast.BinOp) and isinstance(expr.op, ast.BitOr):
+        a, b = dict_entries(repo, mod, expr.left, _depth + 1), dict_entries(repo, mod, expr.right, _depth + 1)
+        if a is None or b is None:
+            return None
+        return {**a, **b}
+    if isinstance(expr, ast.Call):
+        name = expr.func.attr if isinstance(expr.func, ast.Attribute) else getattr(expr.func, "id", None)
+        if name in ("dict", "OrderedDict", "merge"):
+            out = {}
+            for a in expr.args:
+                sub = dict_entries(repo, mod, a, _depth + 1)
+                if sub is None:
+                    return None
+                out.update(sub)
+            for k in expr.keywords:
+                if k.arg is None:
+                    sub = dict_entries(repo, mod, k.value, _depth + 1)
+                    if sub is None:
+                        return None
+                    out.update(sub)
+                else:
+                    out[k.arg] = k.value
+            return out
+    return None
 
 
 class Callee:
